@@ -606,6 +606,19 @@ fn write_datum(resp: &mut ResponseUnit, d: &Datum) {
 /// Format one datum stand-alone through the library (used by the framing model so that C10
 /// does not depend on value formatting).
 pub fn datum_text(d: &Datum) -> core::result::Result<Vec<u8>, ErrObs> {
+    // (formatting is library code: a panic in it must not take the harness down - the run of
+    // the message itself will show it and is judged there)
+    match std::panic::catch_unwind(|| datum_text_inner(d)) {
+        Ok(r) => r,
+        Err(_) => Err(ErrObs {
+            code: 0,
+            msg: B::from("<formatting this datum panicked>"),
+            ext: Some(B::from(crate::exec::take_panic().as_str())),
+        }),
+    }
+}
+
+fn datum_text_inner(d: &Datum) -> core::result::Result<Vec<u8>, ErrObs> {
     let mut v: Vec<u8> = Vec::new();
     let r = match d {
         Datum::I64(x) => x.format_response_data(&mut v),
@@ -725,9 +738,11 @@ impl SimHandler {
                 if plan.finish_each {
                     let r = alloc::library(was, || resp.finish());
                     if let Err(e) = &r {
-                        dev.sim.calls[idx].ret = Some(obs_err(e));
-                        dev.sim.calls[idx].finished = true;
-                        return r;
+                        if !plan.finish_ignore {
+                            dev.sim.calls[idx].ret = Some(obs_err(e));
+                            dev.sim.calls[idx].finished = true;
+                            return r;
+                        }
                     }
                 }
                 fail_if!(Phase::AfterDatum(k));
